@@ -21,6 +21,49 @@ CLAIMED = {
         technique="Lean 4 proof (fuel induction over the recursive-descent parser model) + table translator "
                   "+ exhaustive differential correspondence",
         ref="6 C01"),
+    "C02": dict(
+        text="Lean 4 model of the operator overloads of terms.py and of resolver.py (branch by branch, "
+             "errors included), the Wilkinson-Rogers expansion as an independent denotation "
+             "(Spec.C02.den), the resolver operator table regenerated from the source and tied by `decide`. "
+             "Exhaustive differential run over all operator trees with <= 3 leaves plus random deeper "
+             "trees; the denotation is evaluated by the Lean driver on the implementation's own output; "
+             "failures inside the recorded defect classes (Lean guard predicates + model-predicted "
+             "output) are known findings.",
+        note="Trusted: Lean kernel; translator; CPython operator dispatch and list semantics as modelled "
+             "in Model/Terms.lean; terms compared by name. The refinement theorem (model = denotation on "
+             "the documented language minus the gap classes) is being proved separately; until it is "
+             "merged the model-vs-denotation agreement is checked per case by the driver (sem_ok).",
+        technique="Lean 4 executable model + denotational spec + table tie (decide) + exhaustive "
+                  "differential correspondence",
+        ref="6 C02"),
+    "C11": dict(
+        text="Lean 4 model of VarLookupDict / Environment.capture / the namespace wiring of "
+             "design_matrices and Call.set_type, with 31 theorems for any number of scopes and any "
+             "call-stack depth (first match, nested-dict flattening, documented order for arguments and "
+             "callees, env depth, undefined names raise, dotted names), the wiring facts extracted from "
+             "the source by the translator and tied by `decide`; the finite configuration space (2^5 "
+             "scope subsets x role x name form x depth) is enumerated exhaustively against the real code.",
+        note="Trusted: Lean kernel; translator (ast patterns of environment.py / call.py / matrices.py); "
+             "CPython frame contents (f_locals/f_globals) are taken as given by the model and decided by "
+             "the exhaustive enumeration.",
+        technique="Lean 4 proof (list induction over scope lists) + wiring translator + exhaustive "
+                  "configuration enumeration",
+        ref="6 C11"),
+    "C17": dict(
+        text="Lean 4 theorems about the model of the container bookkeeping of matrices.py for every list "
+             "of terms and widths: slices start at zero, are contiguous, follow the term order and cover "
+             "exactly the columns (also for the recomputed slices of a widened group matrix), "
+             "__getitem__ by known / unknown name, column stacking keeps one row per observation and the "
+             "summed width. Spec.C17.holds is evaluated by the driver on slices / shapes / labels observed "
+             "from real objects, including chains of evaluate_new_data with unseen groups; view equalities "
+             "and printed shapes are checked on the Python side; the evaluation model is compared with the "
+             "implementation on designs over exactly modelled atoms.",
+        note="Trusted: Lean kernel; numpy column_stack / slicing and pandas DataFrame construction are "
+             "modelled by hstack / slices; designs with bs/poly/scale are checked through the "
+             "specification only.",
+        technique="Lean 4 proof (list induction) + correspondence of the evaluation model + spec "
+                  "evaluated on observed containers",
+        ref="6 C17"),
 }
 
 NOT_YET = "check not built yet (work in progress, see DESIGN.md section 9.3)"
